@@ -684,7 +684,15 @@ class SmallSet {
   }
 
   void grow() {
-    _set.insert(std::make_move_iterator(_vec.begin()), std::make_move_iterator(_vec.end()));
+    try {
+      _set.insert(std::make_move_iterator(_vec.begin()), std::make_move_iterator(_vec.end()));
+    } catch (...) {
+      // Come back to a consistent small state: the elements already moved to the set take their values back
+      for (miterator it = _vec.begin(); !_set.empty(); ++it) {
+        *it = std::move(_set.extract(_set.begin()).value());
+      }
+      throw;
+    }
     _vec.clear();
   }
 
